@@ -276,6 +276,10 @@ func hazards() []hazard {
 		"import (\n\t\"context\"\n\n\t\"go.uber.org/cff\"\n)\n\nfunc Run(ctx context.Context, n int) (int, error) {\n\tvar out int\n\terr := cff.Flow(ctx, cff.Params(n), cff.Results(&out))\n\treturn out, err\n}\n", nil)
 	add("directive-result-discarded", "accept",
 		"import (\n\t\"context\"\n\n\t\"go.uber.org/cff\"\n)\n\nfunc Run(ctx context.Context, n int) {\n\tcff.Parallel(ctx, cff.Task(func() { _ = n }))\n\t_ = cff.Parallel(ctx, cff.Task(func() error { return nil }))\n\tgo cff.Parallel(ctx, cff.Task(func() {}))\n\tdefer cff.Parallel(ctx, cff.Task(func() {}))\n}\n", nil)
+	add("line-directives:same-position-twice", "accept",
+		"import (\n\t\"context\"\n\n\t\"go.uber.org/cff\"\n)\n\nfunc Run(ctx context.Context, n int) (string, error) {\n\tvar out string\n\terr := cff.Flow(ctx,\n//line tmpl.go:10\n\t\tcff.Params(n),\n//line tmpl.go:10\n\t\tcff.Results(&out),\n//line tmpl.go:10\n\t\tcff.Task(func(i int) (string, error) { return string(rune('a' + i%26)), nil }),\n//line p.go:30\n\t)\n\treturn out, err\n}\n", nil)
+	add("line-directives:decreasing", "accept",
+		"import (\n\t\"context\"\n\n\t\"go.uber.org/cff\"\n)\n\nfunc Run(ctx context.Context, n int) (string, error) {\n\tvar out string\n\terr := cff.Flow(ctx,\n//line tmpl.go:300\n\t\tcff.Params(n),\n//line tmpl.go:200\n\t\tcff.Results(&out),\n//line tmpl.go:100\n\t\tcff.Task(func(i int) (string, error) { return string(rune('a' + i%26)), nil }),\n//line p.go:30\n\t)\n\treturn out, err\n}\n", nil)
 	add("unexported-foreign-type", "accept",
 		"import (\n\t\"context\"\n\n\t\"go.uber.org/cff\"\n\t\"scratch/HZ/ext\"\n)\n\nfunc Run(ctx context.Context, n int) (string, error) {\n\tvar out string\n\terr := cff.Flow(ctx,\n\t\tcff.Params(n),\n\t\tcff.Results(&out),\n\t\tcff.Task(ext.MakeX),\n\t\tcff.Task(ext.Show),\n\t)\n\treturn out, err\n}\n",
 		map[string]string{"ext/e.go": "package ext\n\nimport \"fmt\"\n\ntype x struct{ n int }\n\nfunc MakeX(i int) x { return x{i} }\n\nfunc Show(v x) string { return fmt.Sprint(v.n) }\n"})
